@@ -339,3 +339,101 @@ def checks(tier):
                       "symbolic bytes each; time in {0, -5, 2^40} (symbolic times: C01b)",
                outside="longer fields; more headers", max_decisions=1200, width=64, tiers=q),
     ]
+
+
+# ---------------------------------------------------------------------------------------------
+# (g) at the object-store entry point: whatever callers do to objects they fetched, a name keeps denoting its bytes
+_b01g = checks
+
+
+def h_store_history(eng, kind="memory", steps=3):
+    """histories of {fetch by name and edit a field, fetch by name, add the edited object, commit_tree_changes} over a
+    store holding a blob, a tree, a commit and a tag: after every step store[X].id == X and get_raw(X) hashes to X for
+    every name X ever stored"""
+    import hashlib
+    import shutil
+    from dulwich.object_store import MemoryObjectStore, DiskObjectStore, commit_tree_changes
+    from vf.interpose import scratch
+    d = None
+    if kind == "memory":
+        st = MemoryObjectStore()
+    else:
+        d = scratch("c01g")
+        st = DiskObjectStore.init(d)
+        if kind == "packed":
+            pass
+    try:
+        b = O.Blob.from_string(b"one\n")
+        t = O.Tree()
+        t.add(b"f", 0o100644, b.id)
+        sub = O.Tree()
+        sub.add(b"g", 0o100644, b.id)
+        t.add(b"d", 0o040000, sub.id)
+        c = O.Commit()
+        c.tree = t.id
+        c.author = c.committer = b"A <a@b>"
+        c.author_time = c.commit_time = 5
+        c.author_timezone = c.commit_timezone = 0
+        c.message = b"m"
+        tg = O.Tag()
+        tg.name = b"v"
+        tg.tagger = b"T <t@t>"
+        tg.tag_time = 1
+        tg.tag_timezone = 0
+        tg.message = b"tm"
+        tg.object = (O.Commit, c.id)
+        objs = [b, sub, t, c, tg]
+        if kind == "packed":
+            st.add_objects([(o, None) for o in objs])
+        else:
+            for o in objs:
+                st.add_object(o)
+        names = {o.id: o.as_raw_string() for o in objs}
+        ids = [o.id for o in objs]
+        for s in range(steps):
+            op = eng.choice(f"op{s}", 4)
+            which = eng.choice(f"obj{s}", len(ids))
+            if op in (0, 1):
+                o = st[ids[which]]
+                if isinstance(o, O.Blob):
+                    o.data = b"edited\n"
+                elif isinstance(o, O.Tree):
+                    o.add(b"zz", 0o100644, b.id)
+                elif isinstance(o, O.Commit):
+                    o.message = b"edited"
+                else:
+                    o.name = b"edited"
+                if op == 1:
+                    st.add_object(o)
+                    names[o.id] = o.as_raw_string()
+            elif op == 2:
+                new_id = commit_tree_changes(st, st[t.id], [(b"d/g", None, None), (b"n", 0o100644, b.id)])
+                names[new_id] = st[new_id].as_raw_string()
+            else:
+                _ = st[ids[which]].id
+            for x, raw in names.items():
+                got = st[x]
+                eng.prove(got.id == x, f"after step {s} (op {op} on object {which}): store[X].id == X for {got.type_name.decode()}")
+                tn, data = st.get_raw(x)
+                want = hashlib.sha1(got.type_name + b" " + str(len(data)).encode() + b"\0" + data).hexdigest().encode()
+                eng.prove(want == x and data == raw, f"after step {s} (op {op} on object {which}): get_raw(X) still hashes to X")
+    finally:
+        if hasattr(st, "close"):
+            st.close()
+        if d:
+            shutil.rmtree(d, ignore_errors=True)
+
+
+def checks(tier):
+    q = ("quick", "thorough")
+    enc_g = ["dulwich.object_store.MemoryObjectStore.__getitem__/get_raw/add_object", "dulwich.object_store.DiskObjectStore."
+             "__getitem__/get_raw", "dulwich.object_store.commit_tree_changes", "dulwich.objects.ShaFile.copy/id"]
+    bound_g = ("a store (in-memory, loose files, one pack) holding a blob, two trees, a commit and a tag; every history of %s "
+               "steps from {fetch any object by name and edit a field, the same and add the result, commit_tree_changes on "
+               "the root tree, fetch and read the id}; all names ever stored re-checked after every step")
+    return _b01g(tier) + [
+        KCheck("C01g.store_history", h_store_history, parts=[{"kind": k, "steps": 2} for k in ("memory", "loose", "packed")],
+               encoded=enc_g, bounds=bound_g % "2", outside="longer histories; other stores (overlay, swift)", tiers=("quick",)),
+        KCheck("C01g.store_history_3", h_store_history, parts=[{"kind": k, "steps": 3} for k in ("memory", "loose", "packed")],
+               encoded=enc_g, bounds=bound_g % "3", outside="longer histories; other stores (overlay, swift)", tiers=("thorough",)),
+    ]
